@@ -502,4 +502,112 @@ Proof.
       cbn [bind]. eexists. split; [reflexivity|]. cbn [sec_index sec_values sec_nbits].
       split; [reflexivity|]. split; [reflexivity|reflexivity].
 Qed.
+
+Lemma decode_sections_cons info ign i idxs props secs r :
+  decode_sections decode_data definitions info ign (i :: idxs) props secs r =
+  let* oc := configure_section definitions props i info ign in
+  match oc with
+  | None => decode_sections decode_data definitions info ign idxs props secs r
+  | Some c =>
+      let* (sec, props1, r1) := decode_section decode_data c props r in
+      if s_end c then Ok (secs ++ [sec], props1, r1)
+      else decode_sections decode_data definitions info ign idxs props1 (secs ++ [sec]) r1
+  end.
+Proof. reflexivity. Qed.
+
+Lemma configure_index props i info ign c :
+  configure_section definitions props i info ign = Ok (Some c) ->
+  s_index c = i /\ exists c0, In c0 definitions /\ s_index c0 = i /\ c = transform info ign c0.
+Proof.
+  unfold configure_section. intros Hc. apply bind_ok in Hc as (c0 & Hg & Hc).
+  destruct (existsb bytes_width_bad _); [discriminate|]. apply bind_ok in Hc as (b & _ & Hc).
+  destruct b; [|discriminate]. injection Hc as <-. rewrite transform_index.
+  destruct (get_configuration_in _ _ _ _ Hg) as [Hin Hidx]. split; [exact Hidx|]. exists c0. auto.
+Qed.
+
+Lemma s_end_transform info ign c0 : In c0 definitions -> s_index c0 <> 4%N -> s_index c0 <> 5%N ->
+  s_end (transform info ign c0) = false.
+Proof.
+  intros Hin H4 H5. unfold transform, info_configuration. rewrite (definitions_no_data c0 Hin H4).
+  assert (He : s_end c0 = false).
+  { destruct (s_end c0) eqn:E; [|reflexivity]. apply definitions_end in E; [|exact Hin]. subst c0. exfalso. apply H5. reflexivity. }
+  destruct info, ign; exact He.
+Qed.
+
+Lemma run_indices info ign l : Forall (fun i => i <> 4%N /\ i <> 5%N) l ->
+  forall props secs r ended secs1 props1 r1,
+  run info ign l props secs r = Ok (ended, secs1, props1, r1) ->
+  ended = false /\ exists new, secs1 = secs ++ new /\ Forall (fun s => In (sec_index s) l) new.
+Proof.
+  induction 1 as [|i l [Hi4 Hi5] Hl IH]; intros props secs r ended secs1 props1 r1; cbn [run].
+  - intros E; injection E as <- <- <- <-. split; [reflexivity|]. exists []. rewrite app_nil_r. auto.
+  - intros H. apply bind_ok in H as (oc & Hc & H). destruct oc as [c|].
+    + apply bind_ok in H as ([[sec props2] r2] & Hs & H).
+      destruct (configure_index _ _ _ _ _ Hc) as (Hci & c0 & Hin0 & Hi0 & ->).
+      rewrite (s_end_transform info ign c0 Hin0) in H by congruence.
+      destruct (decode_section_ok decode_data decode_data_prefix decode_data_suffix _ _ _ _ _ _ Hs)
+        as (e1 & _ & _ & Hidx & _).
+      apply IH in H as (-> & new & -> & Hall). split; [reflexivity|].
+      exists (sec :: new). rewrite <- app_assoc. split; [reflexivity|].
+      constructor; [left; rewrite Hidx, Hci; reflexivity|]. eapply Forall_impl; [|exact Hall]. intros x Hx. right. exact Hx.
+    + apply IH in H as (-> & new & -> & Hall). split; [reflexivity|]. exists new. split; [reflexivity|].
+      eapply Forall_impl; [|exact Hall]. intros x Hx. right. exact Hx.
+Qed.
+
+Definition lt4 (s : section) : bool := (sec_index s <? 4)%N.
+
+Lemma filter_lt4_new idxs new : Forall (fun i => (4 <= i)%N) idxs ->
+  Forall (fun s => In (sec_index s) idxs) new -> filter lt4 new = [].
+Proof.
+  intros Hi. induction 1 as [|s new Hs Hn IH]; [reflexivity|]. cbn [filter]. unfold lt4 at 1.
+  rewrite Forall_forall in Hi. specialize (Hi _ Hs). destruct (N.ltb_spec (sec_index s) 4); [lia|exact IH].
+Qed.
+
+(* C17 info_equals_full_on_sections_0_3: whenever the full decode succeeds, the
+   metadata-only decode of the same input succeeds, returns the same sections
+   0-3 (same parameters, same values, same extents), and a section 4 reduced to
+   its length and reserved bits with the values the full decode saw *)
+Theorem info_equals_full_on_sections_0_3 : forall sig ign s m,
+  decode_message decode_data sig false ign s = Ok m ->
+  exists m',
+    decode_message decode_data sig true ign s = Ok m' /\
+    filter lt4 (m_sections m') = filter lt4 (m_sections m) /\
+    (forall s4, In s4 (m_sections m) -> sec_index s4 = 4%N ->
+       exists s4', In s4' (m_sections m') /\ sec_index s4' = 4%N /\
+                   sec_values s4' = firstn 2 (sec_values s4) /\ sec_nbits s4' = sec_nbits s4).
+Proof.
+  intros sig ign s m. unfold decode_message, decode_message_with. intros H.
+  apply bind_ok in H as (idx & Hidx & H). rewrite Hidx. cbn [bind].
+  apply bind_ok in H as ([[secs props] r'] & Hs & H). apply ok_inj in H. subst m. unfold m_sections.
+  change section_indices with ([0;1;2;3]%N ++ [4;5;6]%N) in Hs |- *.
+  rewrite decode_sections_split in Hs |- *.
+  assert (Hn4 : Forall (fun i => i <> 4%N) [0;1;2;3]%N) by (repeat constructor; discriminate).
+  rewrite (run_info_same ign _ Hn4).
+  destruct (run false ign [0;1;2;3]%N [] [] (bits_of_bytes (skipn idx s))) as [[[[ended secs1] props1] r1]|e] eqn:Erun; [|discriminate].
+  assert (H0123 : Forall (fun i => i <> 4%N /\ i <> 5%N) [0;1;2;3]%N) by (repeat constructor; discriminate).
+  destruct (run_indices false ign _ H0123 _ _ _ _ _ _ _ Erun) as (-> & new0 & E0 & Hnew0). cbn [app] in E0. subst secs1.
+  cbn [bind] in Hs |- *. cbv iota in Hs |- *.
+  rewrite decode_sections_cons in Hs |- *. rewrite configure_4 in Hs |- *. cbn [bind] in Hs |- *.
+  rewrite transform_full4 in Hs. rewrite transform_info4.
+  apply bind_ok in Hs as ([[sec4 props2] r2] & H4 & Hs).
+  destruct (section4_info_from_full _ _ _ _ _ H4) as (sec4i & H4i & Hidx4 & Hv4 & Hn4').
+  rewrite H4i. cbn [bind]. change (s_end info4) with true. change (s_end section4) with false in Hs. cbv iota in Hs |- *.
+  apply decode_sections_indices in Hs as (new & -> & Hnew).
+  eexists. split; [reflexivity|]. cbn [m_sections].
+  assert (Hi4 : sec_index sec4 = 4%N).
+  { destruct (decode_section_ok decode_data decode_data_prefix decode_data_suffix _ _ _ _ _ _ H4)
+      as (e1 & _ & _ & Hx & _). exact Hx. }
+  split.
+  - rewrite !filter_app. cbn [filter]. unfold lt4 at 2 4. rewrite Hidx4, Hi4. change (4 <? 4)%N with false. cbv iota.
+    rewrite (filter_lt4_new [5;6]%N new); [rewrite !app_nil_r; reflexivity| |exact Hnew].
+    repeat constructor; lia.
+  - intros s4 Hin Hs4. exists sec4i. split; [apply in_or_app; right; left; reflexivity|].
+    split; [exact Hidx4|].
+    apply in_app_or in Hin as [Hin|Hin]; [apply in_app_or in Hin as [Hin|Hin]|].
+    + exfalso. rewrite Forall_forall in Hnew0. specialize (Hnew0 _ Hin). rewrite Hs4 in Hnew0.
+      cbn [In] in Hnew0. intuition discriminate.
+    + destruct Hin as [<-|[]]. split; [exact Hv4|exact Hn4'].
+    + exfalso. rewrite Forall_forall in Hnew. specialize (Hnew _ Hin). rewrite Hs4 in Hnew.
+      cbn [In] in Hnew. intuition discriminate.
+Qed.
 End InfoProofs.
